@@ -8,7 +8,7 @@ structure InvE (s : St) : Prop where
   retAfter : ∀ b r, s.log = .returned :: .disconnect b :: r → b = true
   retPhase : ∀ r, s.log = .returned :: r → s.phase = .returned
 
-theorem invE_init : InvE init := ⟨by simp [init], by simp [init], by simp [init]⟩
+theorem invE_init (nc rc : Nat) : InvE (initWith nc rc) := ⟨by simp [initWith], by simp [initWith], by simp [initWith]⟩
 
 theorem InvE.same_log {s s' : St} (hi : InvE s) (hl : s'.log = s.log)
     (hp : s.phase = .retrySleep → s'.phase = .retrySleep) (hr : s.phase = .returned → s'.phase = .returned) : InvE s' :=
@@ -17,21 +17,32 @@ theorem InvE.same_log {s s' : St} (hi : InvE s) (hl : s'.log = s.log)
 theorem invE_step (ae : Bool) (s s' : St) (l : Lbl) (hi : InvE s) (hs : step ae s l = some s') : InvE s' := by
   cases l with
   | cancel => have := step_cancel hs; subst this; exact hi.same_log rfl id id
+  | offer => have := step_offer hs; subst this; exact hi.same_log rfl id id
+  | consumerStop => have := step_consumerStop hs; subst this; exact hi.same_log rfl id id
+  | consumerResume => have := step_consumerResume hs; subst this; exact hi.same_log rfl id id
+  | tick d => have := step_tick hs; subst this; exact hi.same_log rfl id id
   | dialFail => obtain ⟨hp, rfl⟩ := step_dialFail hs; exact hi.same_log rfl (by simp [hp]) (by simp [hp])
-  | noConnTimer => obtain ⟨hp, rfl⟩ := step_noConnTimer hs; exact hi.same_log rfl (by simp [hp]) (by simp [hp])
+  | noConnTimer => obtain ⟨hp, _, rfl⟩ := step_noConnTimer hs; exact hi.same_log rfl (by simp [hp]) (by simp [hp])
+  | noConnDrain => obtain ⟨hp, _, rfl⟩ := step_noConnDrain hs; exact hi.same_log rfl (by simp [hp]) (by simp [hp])
   | peerClose => obtain ⟨c, rest, _, _, rfl⟩ := step_peerClose hs; exact hi.same_log rfl id id
-  | frameComplete => obtain ⟨c, rest, _, _, _, rfl⟩ := step_frameComplete hs; exact hi.same_log rfl id id
+  | byteArrive fin => obtain ⟨c, rest, _, _, _, rfl⟩ := step_byteArrive hs; exact hi.same_log rfl id id
+  | takeFrame => obtain ⟨c, rest, _, _, _, _, _, rfl⟩ := step_takeFrame hs; exact hi.same_log rfl id id
   | spawnWriter => obtain ⟨c, rest, _, hp, rfl⟩ := step_spawnWriter hs; exact hi.same_log rfl (by simp [hp]) (by simp [hp])
-  | readErr => obtain ⟨c, rest, _, hp, _, rfl⟩ := step_readErr hs; exact hi.same_log rfl (by simp [hp]) (by simp [hp])
+  | readErr => obtain ⟨c, rest, _, hp, _, _, rfl⟩ := step_readErr hs; exact hi.same_log rfl (by simp [hp]) (by simp [hp])
+  | readFault =>
+    obtain ⟨c, rest, _, hp, _, _, _, _, _, rfl⟩ := step_readFault hs; exact hi.same_log rfl (by simp [hp]) (by simp [hp])
   | closeQuit => obtain ⟨c, rest, _, hp, rfl⟩ := step_closeQuit hs; exact hi.same_log rfl (by simp [hp]) (by simp [hp])
   | connClose => obtain ⟨c, rest, _, hp, rfl⟩ := step_connClose hs; exact hi.same_log rfl (by simp [hp]) (by simp [hp])
   | writerStart i => obtain ⟨c, _, _, rfl⟩ := step_writerStart hs; exact hi.same_log rfl id id
   | writerSeesCancel i => obtain ⟨c, _, _, _, rfl⟩ := step_writerSeesCancel hs; exact hi.same_log rfl id id
   | writerSeesQuit i => obtain ⟨c, _, _, _, rfl⟩ := step_writerSeesQuit hs; exact hi.same_log rfl id id
-  | dialOk => obtain ⟨hp, rfl⟩ := step_dialOk hs; exact ⟨by simp, by simp, by simp⟩
+  | writerTake i => obtain ⟨c, _, _, _, rfl⟩ := step_writerTake hs; exact hi.same_log rfl id id
+  | writeDone i => obtain ⟨c, _, _, _, rfl⟩ := step_writeDone hs; exact hi.same_log rfl id id
+  | writeErr i => obtain ⟨c, _, _, _, rfl⟩ := step_writeErr hs; exact hi.same_log rfl id id
+  | dialOk bin => obtain ⟨hp, rfl⟩ := step_dialOk hs; exact ⟨by simp, by simp, by simp⟩
   | onConnect => obtain ⟨hp, rfl⟩ := step_onConnect hs; exact ⟨by simp, by simp, by simp⟩
   | deliver => obtain ⟨c, rest, _, hp, _, _, rfl⟩ := step_deliver hs; exact ⟨by simp, by simp, by simp⟩
-  | sleepDone => obtain ⟨hp, rfl⟩ := step_sleepDone hs; exact ⟨by simp, by simp, by simp⟩
+  | sleepDone => obtain ⟨hp, _, rfl⟩ := step_sleepDone hs; exact ⟨by simp, by simp, by simp⟩
   | onDisconnect b =>
     obtain ⟨c, rest, _, hp, _, rfl⟩ := step_onDisconnect hs
     refine ⟨?_, by simp, by simp⟩
@@ -49,7 +60,7 @@ theorem invE_step (ae : Bool) (s s' : St) (l : Lbl) (hi : InvE s) (hs : step ae 
 
 theorem invE_reachable {ae : Bool} {s : St} (h : Reachable ae s) : InvE s := by
   induction h with
-  | init => exact invE_init
+  | init nc rc => exact invE_init nc rc
   | step l _ hs ih => exact invE_step ae _ _ l ih hs
 
 end RawPanelVerif.Lifecycle
